@@ -285,6 +285,7 @@ def repair_line(raw, hostile_names):
 
 def replay_obj(c, extra=None):
     o = {'stub_files': {}, 'options': c.options, 'accept': c.accept, 'names': c.names,
+         'sizes': {k: c.d[k] for k in ('nlVars', 'nlObjs', 'nlAlg', 'nlLog')},
          'how': 'write the files, then: RECSOLVER_ACCEPT=<accept> RECSOLVER_LOG=log recsolver m -AMPL <options> cvt:writegraph=m.graph '
                 '(recsolver = harness/recsolver built by checks/recsolver.py); or ./check C20 --replay <this file>'}
     for ext in ('.nl', '.col', '.row'):
@@ -454,6 +455,13 @@ def stage_validation(ck, exe, drv, tab, ncases, hist, sample_lines):
                 ck.add_violation(sig, what + ' (conversion failed later; partial file)', replay_obj(c))
             continue
         nval += 1
+        if any(pr and py_nat(pr.get('bridged')) == 1 for pr in pyrecs):
+            h = hashlib.sha256()
+            for ext in ('.nl', '.col', '.row'):
+                if os.path.exists(c.stub + ext):
+                    h.update(open(c.stub + ext, 'rb').read())
+            h.update(repr((c.accept, c.options)).encode())
+            hist.setdefault('_distinct', set()).add(h.hexdigest())
         if c.unknown_types:
             ck.add_violation('model-drift:unknown-type', 'delivered constraint types without STORE_CONSTRAINT_TYPE entry: %s' % c.unknown_types,
                              replay_obj(c), found_input=False)
@@ -704,21 +712,61 @@ def run(ck):
     exe = recsolver.build(ck)
     hist = {'feature': {}, 'names': {}, 'accept': {}, 'outcome': {}, 'record': {}, 'delivered_type': {}, 'stored_type': {},
             'link_type': {}}
-    nh = stage_harness(ck, drv, 4000 if quick else 40000, 4000 if quick else 40000, hist)
+    nh = stage_harness(ck, drv, 6000 if quick else 100000, 6000 if quick else 100000, hist)
     ck.log('harness: %d op sequences; %s %s' % (nh, hist.get('harness_json'), hist.get('harness_links')))
     sample_lines = []
-    ncases, nval, nlines = stage_validation(ck, exe, drv, tab, 400 if quick else 5000, hist, sample_lines)
-    npar = stage_parser(ck, drv, sample_lines[:800 if quick else 5000], 4000 if quick else 40000, hist)
+    ncases, nval, nlines = stage_validation(ck, exe, drv, tab, 800 if quick else 15000, hist, sample_lines)
+    npar = stage_parser(ck, drv, sample_lines[:1000 if quick else 5000], 6000 if quick else 40000, hist)
     ck.log('parser cross-check: %s' % hist['parser_crosscheck'])
     ck.log('validation: %d runs, %d converted+validated, %d export lines; outcomes %s' % (ncases, nval, nlines, hist['outcome']))
     ck.cov['evaluations'] = nlines + nh + npar
     ck.cov['traces_validated_against_impl'] = nval
-    ck.cov['distinct_nontrivial'] = nval
+    ck.cov['distinct_nontrivial'] = len(hist.pop('_distinct', set()))
     ck.cov['rule'] = 'one recsolver run of the real converter per generated (model, acceptance set, name mode, options); ' \
-                     'counted if the model was converted and its export + API log went through the Lean validator'
+                     'traces_validated = runs whose model was converted and whose export + API log went through the Lean validator; ' \
+                     'distinct_nontrivial = those among them with at least one reformulated (bridged) constraint, distinct by ' \
+                     'sha256 of (.nl, .col, .row, acceptance set, options)'
     ck.cov['exhaustive'] = False
     ck.cov['histogram'] = hist
+    ck.assumptions += [
+        'NL model sizes (variables, algebraic/logical constraints) are those of the generated model; the number of selected objectives follows obj:no / obj:multi',
+        'the RecModelAPI log is the independent record of what the solver API received (types, groups, names, counts); numeric values are not compared',
+        'export type names are derived from the STORE_CONSTRAINT_TYPE__* macros of the current tree',
+        'runs whose conversion fails (or crashes) are checked line by line only']
+    ck.cov['trusted_base'] += ['MpVerif/C20/ModelGraph.lean `classify` as the reading of the record shapes; `parse` as the definition of valid JSON (cross-checked with python json on every run)',
+                               'harness/recsolver (recording driver) incl. RECSOLVER_LINKS final link extents; harness/h_c20.cc']
     if not proof_ok:
         for f in failing:
             ck.add_violation('obligation:%s' % f, 'proof obligation no longer checks: %s' % f,
                              {'theorem': f, 'module': 'MpVerif.C20.Props'}, found_input=False)
+
+
+def replay(ck, path):
+    """re-run one stored case (a replay/*.json or corpus/C20/*.json file) against the current tree"""
+    o = json.load(open(path))
+    o = o.get('replay', o)
+    drv = ck.driver('drv_c20')
+    tab = type_table()
+    exe = recsolver.build(ck)
+    cdir = os.path.join(BUILD, 'c20replay')
+    tmp = os.path.join(BUILD, 'c20replay.json')
+    json.dump(o, open(tmp, 'w'))
+    c = load_corpus_case(exe, tab, cdir, 0, tmp)
+    if c.lines is None:
+        print('no export file written; rc=%s err=%s' % (c.rc, c.err[-300:]))
+        return 1
+    ans = run_driver(drv, driver_ops(c), 'replay')
+    lv, verdict = ans[1:1 + len(c.lines)], ans[-1]
+    sig, what = classify_case(c, lv, verdict if c.converted else 'ok')
+    print('converted=%s lean=%s signature=%s %s' % (c.converted, verdict, sig, what))
+    pyrecs = [py_parse_line(l) for l in c.lines]
+    if all(x is not None for x in pyrecs) and c.links_final:
+        stale, missing = link_staleness(c, pyrecs)
+        print('stale link records: %s; registered entries without record: %s' % (stale[:3], missing[:3]))
+        if missing:
+            ck.add_violation('link-entry-missing:%s' % missing[0][0], 'registered link entry without export record: %s' % (missing[:3],), o)
+        for key, exp, fin in stale[:1]:
+            ck.add_violation('link-entry-stale:%s:%s' % (key[0], exp[0][0][0]), 'link entry %s #%s exported as %s, final extent %s' % (key[0], key[1], exp, fin), o)
+    if sig:
+        ck.add_violation(sig, what, o)
+    return ck.finish()
